@@ -106,7 +106,8 @@ class C03(Property):
             # composition without time components: pull-based component only
             return dict(comps=[dict(name="p0", type="pull", nin=0, nout=1, eager=True, info="target")], links=[], order=[0], link_order=[],
                         start=0, end=None, meta=dict(n_time=0, cyclic=False, n_pull=1))
-        spec = gen_coupling.gen_dag(rnd, cycle="sufficient" if rnd.random() < 0.3 else None)
+        cyc = "sufficient" if rnd.random() < 0.3 else None
+        spec = gen_coupling.gen_dag(rnd, cycle=cyc, shipped=0.0 if cyc else 0.25)
         tc = [c for c in spec["comps"] if c["type"] == "time"]
         c = rnd.choice(tc)
         k = rnd.randint(1, 6)
